@@ -386,11 +386,22 @@ func (set *Set) add(hosts ...*Host) {
 		set.all[host.Addr] = host
 		// a host that is currently marked unhealthy becomes usable when the
 		// health check marks it healthy again.
+		// the usable list is published once, at the end of the call: Healthy()
+		// reads it without the lock and must not see part of a batch.
 		if host.IsHealthy() {
-			set.addToHealthy(host)
+			set.putHealthy(host)
 		}
 	}
 	set.buildHealthyCache()
+}
+
+func (set *Set) putHealthy(h *Host) {
+	switch h.Type {
+	case TypeMain:
+		set.healthyMain[h.Addr] = h
+	case TypeBackup:
+		set.healthyBackup[h.Addr] = h
+	}
 }
 
 func (set *Set) dropHealthy(h *Host) {
@@ -523,8 +534,15 @@ func (set *Set) Exist(addr string) bool {
 func (set *Set) ReplaceAll(hosts []*Host) {
 	set.Lock()
 	defer set.Unlock()
-	for _, host := range set.all {
-		set.remove(host)
+	// the maps are emptied and filled without publishing a usable list in
+	// between: Healthy() reads the cache without the lock, and would otherwise
+	// see shrinking lists, the backup tier, or no host at all.
+	for addr, host := range set.all {
+		delete(set.all, addr)
+		host.markRemoved()
+		set.dropHealthy(host)
 	}
 	set.add(hosts...)
+	// add publishes nothing for an empty list
+	set.buildHealthyCache()
 }
